@@ -12,6 +12,7 @@ import gc
 import inspect
 
 from ..core import Violation, HarnessError, stream, sut, exc_name, InjectedFault
+from ..core import deep
 from ..sched import Sched
 
 ID = "C02"
@@ -152,7 +153,7 @@ class Prop:
             ti = c.randrange(ntr)
             if all(x[0] != ti for x in ctor):
                 ctor.append([ti, c.choice(VALID[traits[ti]["kind"]])])
-        nops = c.choice([5, 8, 12, 20, 30, 40])
+        nops = deep(c, [5, 8, 12, 20, 30, 40], [60, 90])
         # the object may be an instance of a subclass (or sub-subclass) that inherits
         # the static handlers and may override one of them
         subclass = c.choice([0, 0, 1, 1, 2])
